@@ -83,6 +83,8 @@ def _w():
     add("handler-bind", "B", lambda e, r: [S("handler-bind"), [[S("my-cond"), [S("lambda"), [S("c"), S("&rest"), S("a")], [S("probe"), Q(S("handled")), S("c")], Q(S("h"))]]], e])
     add("handler-rethrow", "B", lambda e, r: [S("handler-bind"), [[S("condition"), [S("lambda"), [S("c"), S("&rest"), S("a")], [S("probe"), Q(S("seen")), S("c")], [S("rethrow")]]]], e])
     add("ignore-errors", "B", lambda e, r: [S("ignore-errors"), e])
+    # the call is the tail call of the HANDLER (the retry shape): made through the handler-bind frame, never collapsed
+    add("handler-call", "B", lambda e, r: [S("handler-bind"), [[S("my-cond"), [S("lambda"), [S("c"), S("&rest"), S("a")], e]]], [S("error"), Q(S("my-cond")), STR("again")]])
     # a macro call is replaced in place by its expansion: the call written in the argument ends up
     # wherever the expansion puts it, after the macro's own (blocked) frame is gone - class X: only
     # transparency is required of it, no height law
@@ -241,7 +243,9 @@ def boundary_loop(kind, n):
     call = {"macro-body": [S("mm")],
             "load-string": [S("load-string"), STR("(g)")],
             "handler-bind": [S("handler-bind"), [[S("condition"), [S("lambda"), [S("c"), S("&rest"), S("a")], S("c")]]], [S("g")]],
-            "ignore-errors": [S("ignore-errors"), [S("g")]]}[kind]
+            "ignore-errors": [S("ignore-errors"), [S("g")]],
+            # the retry shape: the recursive call is the tail call of the HANDLER of a handler-bind in tail position
+            "handler-call": [S("handler-bind"), [[S("my-cond"), [S("lambda"), [S("c"), S("&rest"), S("a")], [S("g")]]]], [S("error"), Q(S("my-cond")), STR("again")]]}[kind]
     forms = [[S("set"), Q(S("cnt")), n],
              [S("defmacro"), S("mm"), [], [S("g")]],
              [S("defun"), S("g"), [],
